@@ -18,16 +18,16 @@ RACE_TECH = "; plus a free-running -race leg over the same seeded worlds (interl
 
 CLAIMED = {
  "C01": dict(
-   text="Seeded search over schedules x read chunkings x tuning knobs (-z with mixed plain/gzip inputs, -I, scanner-buffer and index-pool sizes) of the real batchers+extractor pipeline, API-level and through `rare filter` in-process; every run's counters and emitted (source,line,key) multiset are compared with a sequential reference classification. A free-running -race leg re-runs the same worlds truly in parallel (same oracle; a data race among pipeline goroutines is reported). Evidence of absence over the explored runs, not proof.",
+   text="Seeded search over schedules x read chunkings x tuning knobs (-z with mixed plain/gzip inputs, -I, scanner-buffer and index-pool sizes) of the real batchers+extractor pipeline, API-level, through `rare filter` in-process, and (one run in eight) over followed files through batchers.TailFilesToChan; every run's counters and emitted (source,line,key) multiset are compared with a sequential reference classification. A free-running -race leg re-runs the same worlds truly in parallel (same oracle; a data race among pipeline goroutines is reported). Evidence of absence over the explored runs, not proof.",
    ref="DESIGN.md section 5 C01 and 13.7", note=NOTE + RACE_NOTE, tech=TECH + RACE_TECH),
  "C02": dict(
-   text="Same simulated pipeline (incl. -z, -I, lines with case-changing and invalid UTF-8 bytes) with a consumer that retains every match until the run ended; each match's source, line number, text, indices and key are re-read then and compared with stdlib regexp / reference dissect on private copies; `rare --color filter` output with SGR codes stripped must be the matched lines byte for byte. A free-running -race leg re-runs the same worlds truly in parallel. Evidence over explored runs, not proof.",
+   text="Same simulated pipeline (incl. -z, -I, lines with case-changing and invalid UTF-8 bytes) with a consumer that retains every match until the run ended; each match's source, line number, text, indices and key are re-read then and compared with stdlib regexp / reference dissect on private copies; `rare --color filter` output with SGR codes stripped must be the matched lines byte for byte; one run in four follows growing files (source, gap-free line numbers and text of every batch handed to the workers, under slow consumers and the 250ms time flush). A free-running -race leg re-runs the same worlds truly in parallel. Evidence over explored runs, not proof.",
    ref="DESIGN.md section 5 C02 and 13.7", note=NOTE + RACE_NOTE, tech=TECH + RACE_TECH),
  "C04": dict(
-   text="Seeded search over byte strings (0-200 bytes dense in \\n and \\r, and long stall-heavy streams of 100-400 lines) x partitions of the stream into Read results (chunk sizes, 0-byte stalls in runs of up to 150, whole-line reads, data-with-EOF, one injected non-EOF error, sticky or transient) x buffer sizes for both scanners; every case is compared with a reference splitter on the delivered prefix, OnError is counted, every returned slice is re-read after the scan and again after the next scanner has run (aliasing, also through recycled buffers), and a scanner that keeps reading with an empty buffer is reported as non-terminating. Evidence over explored cases, not proof.",
+   text="Seeded search over byte strings (0-200 bytes dense in \\n and \\r, and long stall-heavy streams of 100-400 lines) x partitions of the stream into Read results (chunk sizes, 0-byte stalls in runs of up to 150, whole-line reads, data-with-EOF, one injected non-EOF error, sticky or transient) x buffer sizes for both scanners; every case is compared with a reference splitter on the delivered prefix, OnError is counted, every returned slice is re-read after the scan and again after the next scanner has run (aliasing, also through recycled buffers), and a scanner that keeps reading with an empty buffer is reported as non-terminating. One run in eight, and a free-running -race leg, use the scanners the way the pipeline does (one per input, two or more reader goroutines, lines held in batches and matches by other goroutines): every retained line is re-read after the run. Evidence over explored cases, not proof.",
    ref="DESIGN.md section 5 C04",
    note="Trusted: the 15-line reference splitter; the scripted reader is the only stub. No goroutines exist in this property; the 'schedule' is the read partition drawn from the tape.",
-   tech="deterministic simulation with fault injection: scripted io.Reader (seeded read partition, stalls, EOF forms, injected error) under the real scanners, reference splitter oracle, retained-slice aliasing re-check, tape shrinking and fresh-process replay"),
+   tech="deterministic simulation with fault injection: scripted io.Reader (seeded read partition, stalls, EOF forms, injected error) under the real scanners, reference splitter oracle, retained-slice aliasing re-check, tape shrinking and fresh-process replay; a pipeline leg under the cooperative scheduler and a free-running -race leg for scanners used by concurrent readers"),
 }
 
 CLAIMED["C05"] = dict(
